@@ -2,7 +2,7 @@ From Coq Require Import Extraction ExtrOcamlBasic.
 From PV Require Import Base.Bytes Base.Outcome Base.Varint Base.DrvBase Gen.GenTxConsts Model.TxWire.
 Extraction "../ml/c07.ml" drv_base
   parse_varint stream_varint put_varint parse_varstr stream_varstr parse_satoshi_int
-  parse_struct stream_struct chars
+  parse_struct stream_struct
   parse_txin stream_txin parse_txout stream_txout txin_is_coinbase tx_is_coinbase
   stream_tx tx_as_bin parse_tx parse_tx_ltc tx_from_bin tx_as_hex tx_from_hex
   missing_unspents missing_unspent has_witness_data
